@@ -203,12 +203,16 @@ def run_e1(case, scratch_root, props, inject=None):
         pr.events(new_only=True)
         ctl = None
         kw = {"audit": audit, "stdout_log": slog}
+        if inv.get("outer_env"):
+            kw["env_extra"] = dict(inv["outer_env"])
+        if inv.get("proc"):
+            kw["proc"] = inv["proc"]
         if last:
             ctl = Controller(pr, random.Random(inv.get("seed", 0)), case.get("e1_policy", "random-some"), inject)
             ctl.pos = pr._pos
             kw["poll"] = ctl.poll
             if case.get("outer_env"):
-                kw["env_extra"] = case["outer_env"]
+                kw["env_extra"] = dict(kw.get("env_extra") or {}, **case["outer_env"])
             if inv.get("unrelated"):
                 kw["prefork"] = [(random.Random(inv.get("seed", 0) + i).randint(20, 400), (u.get("exit", 0) if "exit" in u else 9)) for i, u in enumerate(inv["unrelated"])]
         r = pr.cond(argv, timeout=inv.get("timeout", 60), **kw)
